@@ -412,6 +412,33 @@ def oracle_reload(ctx, case, n_op, s, path, kind, chosen, nv, probe, tagbase):
             ctx.violation(dict(case, at=n_op), y1.ravel().tolist()[:6], y2.ravel().tolist()[:6],
                           "reloaded statistics give an identical apply()", tags=dict(tagbase, clause="reload_apply"))
             return
+    # "saving again succeeds": a RELOADED object saved back onto the very file it was loaded from (on a copy of the file,
+    # so the history under test is not disturbed), then loaded once more, is still the same transform - the loader may
+    # not keep the file open or mapped
+    import shutil as _sh
+    root, ext = os.path.splitext(path)
+    cp = root + "_resave" + ext
+    try:
+        _sh.copyfile(path, cp)
+        kw = variants[0]
+        with warnings.catch_warnings():
+            warnings.simplefilter("ignore")
+            a = p.Standardize(cp, norm_var=nv, **kw)
+            a.save(cp, **({"key": chosen} if kind == "npz" and chosen is not None else {}))
+            b = p.Standardize(cp, norm_var=nv, **kw)
+            with np.errstate(all="ignore"):
+                y3 = b.apply(probe)
+        if not np.array_equal(y1, y3, equal_nan=True):
+            ctx.violation(dict(case, at=n_op, history="load, save onto the same file, load"), y1.ravel().tolist()[:6], y3.ravel().tolist()[:6],
+                          "a reloaded object saved back onto its own file reloads to the same transform",
+                          tags=dict(tagbase, clause="resave_onto_loaded_file"))
+    except Exception as e:
+        ctx.violation(dict(case, at=n_op, history="load, save onto the same file, load"), "succeeds", "%s: %s" % (err_name(e), str(e)[:80]),
+                      "a reloaded object can be saved back onto its own file and loaded again",
+                      tags=dict(tagbase, clause="resave_onto_loaded_file_raises"))
+    finally:
+        if os.path.exists(cp):
+            os.remove(cp)
 
 
 # ---- correspondence ------------------------------------------------------------------------------------------
